@@ -111,6 +111,36 @@ Proof.
   pose proof (calls_at_most (length pop) pop r). lia.
 Qed.
 
+(* counting: a successful step makes exactly n calls and n children; a failed one makes exactly one child fewer than
+   calls (every call before the failing one succeeded, nothing ran after it) and never more than n calls *)
+Definition made (cs : list (R * ((Ind + E) * R))) : nat :=
+  length (filter (fun c => match fst (snd c) with inl _ => true | inr _ => false end) cs).
+Lemma repeat_counts n pop r :
+  match repeat_ n cm pop r with
+  | (inl _, _) => length (calls n pop r) = n /\ made (calls n pop r) = n
+  | (inr _, _) => length (calls n pop r) = S (made (calls n pop r)) /\ length (calls n pop r) <= n
+  end.
+Proof.
+  revert r. induction n as [|n IH]; intros r; cbn [repeat_ calls]; [split; reflexivity|].
+  destruct (cm pop r) as [[c|e] r1] eqn:Hc; cbn [fst snd].
+  - specialize (IH r1). unfold made in *. cbn [filter fst snd length].
+    destruct (repeat_ n cm pop r1) as [[cs|e] r2]; cbn [length]; lia.
+  - unfold made. cbn [filter fst snd length]. lia.
+Qed.
+Theorem serial_counts pop r :
+  match serial_next pop r with
+  | (inl children, pop', _) => length (calls (length pop) pop r) = length pop /\ made (calls (length pop) pop r) = length pop /\
+                               pop' = children /\ length pop' = length pop
+  | (inr _, pop', _) => pop' = pop /\ length (calls (length pop) pop r) = S (made (calls (length pop) pop r)) /\
+                        length (calls (length pop) pop r) <= length pop
+  end.
+Proof.
+  unfold serial_next. pose proof (repeat_counts (length pop) pop r) as H.
+  destruct (repeat_ (length pop) cm pop r) as [[cs|e] r1] eqn:Hr.
+  - destruct H as [H1 H2]. repeat split; try assumption. eapply repeat_length; eassumption.
+  - destruct H as [H1 H2]. repeat split; assumption.
+Qed.
+
 (* an empty population steps to an empty population without consulting the child maker or the generator *)
 Theorem serial_empty r : serial_next [] r = (inl [], [], r).
 Proof. reflexivity. Qed.
